@@ -65,6 +65,8 @@ pub struct Printer<'a> {
     pub mutator: Option<crate::core::mutate::Mutator>,
     /// where the next checking site sits (set by the parent construct; used for mutation labels)
     pub hint: &'static str,
+    /// emit scope markers (`\u{1}S<bid>` … `\u{1}E<bid>`) around the scope of every lexical term binder
+    pub scopes: bool,
 }
 
 pub fn prelude(repo: &Path) -> String {
@@ -157,8 +159,34 @@ pub fn f64_literal(bits: u64) -> String {
 
 impl<'a> Printer<'a> {
     pub fn new(prog: &'a Program, names: &'a Names, style: &'a Style) -> Self {
-        Printer { prog, names, style, out: vec![], exporter: None, mutator: None, hint: "root" }
+        Printer { prog, names, style, out: vec![], exporter: None, mutator: None, hint: "root", scopes: false }
     }
+    /// open the scopes of the binders of `p` (a no-op unless scope markers are requested)
+    fn scope_open(&mut self, p: &Pat) -> Vec<Bid> {
+        if !self.scopes {
+            return vec![];
+        }
+        fn bs(p: &Pat, out: &mut Vec<Bid>) {
+            match p {
+                | Pat::Var(b) => out.push(*b),
+                | Pat::Tuple(items) | Pat::Alias(items) => items.iter().for_each(|i| bs(i, out)),
+                | Pat::Ctor(_, _, inner) => bs(inner, out),
+                | _ => {}
+            }
+        }
+        let mut out = vec![];
+        bs(p, &mut out);
+        for b in &out {
+            self.out.push(format!("\u{1}S{b}"));
+        }
+        out
+    }
+    fn scope_close(&mut self, bids: Vec<Bid>) {
+        for b in bids.into_iter().rev() {
+            self.out.push(format!("\u{1}E{b}"));
+        }
+    }
+
     pub(crate) fn p(&mut self, s: &str) {
         self.out.push(s.to_string());
     }
@@ -621,7 +649,9 @@ impl<'a> Printer<'a> {
                 self.head(m, &CTy::Ret(Box::new(a.clone())), false);
                 self.p(";");
                 self.hint = "do-tail";
+                let sc = self.scope_open(p);
                 self.comp(n, t);
+                self.scope_close(sc);
             }
             | Comp::Let(p, a, v, n) => {
                 self.p(if self.style.def_values { "def" } else { "let" });
@@ -643,31 +673,38 @@ impl<'a> Printer<'a> {
                 }
                 self.p("in");
                 self.hint = "let-body";
+                let sc = self.scope_open(p);
                 self.comp(n, t);
+                self.scope_close(sc);
             }
             | Comp::Fn(..) if self.style.fn_as_comatch => {
                 self.p("comatch");
                 self.p("|");
                 let mut cur = c;
                 let mut ty = t;
+                let mut sc = vec![];
                 loop {
                     let (Comp::Fn(p, a, m), CTy::Arrow(_, b)) = (cur, ty) else { break };
                     self.pat_ann(p, a);
+                    sc.extend(self.scope_open(p));
                     cur = m;
                     ty = b;
                 }
                 self.p("=>");
                 self.hint = "fn-body";
                 self.comp(cur, ty);
+                self.scope_close(sc);
                 self.p("end");
             }
             | Comp::Fn(..) => {
                 self.p("fn");
                 let mut cur = c;
                 let mut ty = t;
+                let mut sc = vec![];
                 loop {
                     let (Comp::Fn(p, a, m), CTy::Arrow(_, b)) = (cur, ty) else { break };
                     self.pat_ann(p, a);
+                    sc.extend(self.scope_open(p));
                     cur = m;
                     ty = b;
                     if !self.style.merge_fn {
@@ -677,6 +714,7 @@ impl<'a> Printer<'a> {
                 self.p("=>");
                 self.hint = "fn-body";
                 self.comp(cur, ty);
+                self.scope_close(sc);
             }
             | Comp::TFn(x, is_c, m) => {
                 let body_ty = match t {
@@ -750,7 +788,9 @@ impl<'a> Printer<'a> {
                     self.pat(&arm.pat);
                     self.p("=>");
                     self.hint = "match-arm";
+                    let sc = self.scope_open(&arm.pat);
                     self.comp(&arm.body, t);
+                    self.scope_close(sc);
                 }
                 self.p("end");
             }
@@ -765,12 +805,14 @@ impl<'a> Printer<'a> {
                     } else {
                         self.p(&decl.name);
                     }
+                    let mut sc = vec![];
                     for (p, a) in &cl.params {
                         if self.style.annotate_coparams {
                             self.pat_ann(p, a);
                         } else {
                             self.pat(p);
                         }
+                        sc.extend(self.scope_open(p));
                     }
                     self.p("=>");
                     // clause body type: remaining parameters as arrows
@@ -780,6 +822,7 @@ impl<'a> Printer<'a> {
                     }
                     self.hint = "comatch-clause";
                     self.comp(&cl.body, &rt);
+                    self.scope_close(sc);
                 }
                 self.p("end");
             }
@@ -818,7 +861,9 @@ impl<'a> Printer<'a> {
                 self.p(")");
                 self.p("=>");
                 self.hint = "fix-body";
+                let sc = self.scope_open(&Pat::Var(*f));
                 self.comp(m, b);
+                self.scope_close(sc);
             }
         }
     }
@@ -1027,6 +1072,9 @@ pub fn join(tokens: &[String]) -> String {
     let mut s = String::new();
     let mut col = 0usize;
     for t in tokens {
+        if t.starts_with('\u{1}') {
+            continue;
+        }
         if t == "\n" {
             s.push('\n');
             col = 0;
